@@ -383,9 +383,9 @@ structure SetArgs where
 /-- the `if not mismatch:` block of `_set` at the node that was reached -/
 def setHere (a : SetArgs) : Node → Except Err Node
   | .mk k d p f h lits tok =>
-    if a.data.isSome && d.isSome && !a.overwrite then throw .radiDictKeyError
-    else if a.hooks.isSome && h.isSome && !a.overwrite then throw .radiDictKeyError
-    else pure (.mk k (if a.data.isSome then a.data else d) (if a.data.isSome then a.names else p) f
+    if a.data.isSome && d.isSome && !a.overwrite then .error .radiDictKeyError
+    else if a.hooks.isSome && h.isSome && !a.overwrite then .error .radiDictKeyError
+    else .ok (.mk k (if a.data.isSome then a.data else d) (if a.data.isSome then a.names else p) f
       (if a.hooks.isSome then a.hooks else h) lits tok)
 
 mutual
@@ -412,8 +412,8 @@ def splitIns (a : SetArgs) (n : Node) (route : List Sym) : Except Err Node :=
   let old := n.withKey (n.key.drop cp.length)
   match route.drop cp.length with
   | [] => setHere a (.mk cp none [] none none [old] none)
-  | .lit c :: r => pure (.mk cp none [] none none [chainLit a [c] r, old] none)
-  | .tok g :: r => pure (.mk cp none [] none none [old] (some (chainTok a g r)))
+  | .lit c :: r => .ok (.mk cp none [] none none [chainLit a [c] r, old] none)
+  | .tok g :: r => .ok (.mk cp none [] none none [old] (some (chainTok a g r)))
 
 mutual
 /-- `RadiDict._set(pnode, route, …)`: the new node, or the exception (tree unchanged) -/
@@ -424,11 +424,11 @@ def insN (a : SetArgs) : Node → List Sym → Except Err Node
   | .mk k d p f h lits tok, .tok g :: r =>
     (insT a tok g r).map fun t => .mk k d p f h lits (some t)
 def insT (a : SetArgs) : Option Node → Option Fid → List Sym → Except Err Node
-  | none, g, r => pure (chainTok a g r)
-  | some t, g, r => if t.filter != g then throw .radiDictKeyError else insN a t r
+  | none, g, r => .ok (chainTok a g r)
+  | some t, g, r => if t.filter != g then .error .radiDictKeyError else insN a t r
 /-- `none`: no literal child starts with `c` (the caller mounts a new first child) -/
 def insL (a : SetArgs) : List Node → Char → List Sym → Except Err (Option (List Node))
-  | [], _, _ => pure none
+  | [], _, _ => .ok none
   | k :: ks, c, r =>
     if k.key.head? == some c then
       ((stripKey k.key (.lit c :: r)).elim (splitIns a k (.lit c :: r)) fun rest => insN a k rest).map
